@@ -141,11 +141,12 @@ example : (tryUpdate 10 { lih := 28, dposStart := 28, dposWork := 30, dpos := tr
 
 /-! ### ties to the source -/
 
-/-- the guard is consulted by both functions that can start a (restoring-free) reorganisation with a
-    work comparison; `ReorganizeChain2` (rollback tool path) has none — recorded -/
+/-- the guard is consulted by both functions that can start a (restoring-free) reorganisation, and both hand it
+    the best height and the number of blocks to detach (`ReorganizeChain` passed the target block's height until
+    /repo 73f0de75); `ReorganizeChain2` (rollback tool path) has no guard — recorded -/
 theorem C30_gen_sites :
     Gen.C30.guardSites =
-      ["ReorganizeChain: b.state.IsIrreversible(block.Height, detachNodes.Len())",
+      ["ReorganizeChain: b.state.IsIrreversible(b.BestChain.Height, detachNodes.Len())",
        "connectBestChain: b.state.IsIrreversible(b.BestChain.Height, detachNodes.Len())"] ∧
     Gen.C30.reorgSites =
       ["ReorganizeChain2: b.reorganizeChain2", "ReorganizeChain: b.reorganizeChain",
@@ -180,5 +181,30 @@ theorem C30_reload (h : Hist) (k : Nat) : (reload h).st = h.st ∧ rollbackTo (r
   constructor
   · rfl
   · simp [reload, rollbackTo]
+
+/-- **C30 for the work-unchecked entry.** `reorgTo` = the exported `BlockChain.ReorganizeChain` on an indexed block
+    (a DPoS-confirmed block on a fork): above `CRCOnlyDPOSHeight` it either leaves the active chain alone (block not
+    indexed, or the guard refuses) or it runs the reorganisation of `reorgPlan`, and then every detached height —
+    the heights above `tip − detach` — lies above the recorded last irreversible height. -/
+theorem C30_reorgto (s : NState) (id : Nat) (hg : s.tip.height > s.P.guardFrom) :
+    (reorgTo s id).1 = s ∨
+    ∃ b, s.known.find? (·.id == id) = some b ∧
+      reorgTo s id = reorganize s (reorgPlan s b).1 (reorgPlan s b).2 ∧
+      ∀ ht, s.tip.height - (reorgPlan s b).1 < ht → s.lih < ht := by
+  unfold reorgTo reorgToWith
+  cases hf : s.known.find? (·.id == id) with
+  | none => left; rfl
+  | some b =>
+    simp only
+    by_cases hi : isIrreversible s s.tip.height (reorgPlan s b).1 = true
+    · left; simp [hi]
+    · right
+      have hi' : isIrreversible s s.tip.height (reorgPlan s b).1 = false := by simpa using hi
+      exact ⟨b, rfl, by simp [hi'], C30_detached_above_lih s s.tip.height (reorgPlan s b).1 hg hi'⟩
+
+/-- with the target block's height in the guard (the code before /repo 73f0de75) the protection is not there: the
+    guard can pass although the fork point `tip − detach` is at or below the last irreversible height -/
+example : ∃ (tip target detach lih : Nat), target - detach > lih ∧ tip - detach ≤ lih :=
+  ⟨17, 20, 7, 12, by decide, by decide⟩
 
 end ElaVerif.C30
